@@ -5,6 +5,7 @@
 package engine
 
 import (
+	"context"
 	"fmt"
 	"os"
 	"path/filepath"
@@ -21,9 +22,12 @@ import (
 	"lunar/engine/utils/environment"
 	"lunar/toolkit-core/clock"
 	context_manager "lunar/toolkit-core/context-manager"
+	lunarotel "lunar/toolkit-core/otel"
 	"lunar/toolkit-core/verifhook"
 
 	"github.com/rs/zerolog"
+	sdkmetric "go.opentelemetry.io/otel/sdk/metric"
+	"go.opentelemetry.io/otel/sdk/metric/metricdata"
 )
 
 var setupOnce sync.Once
@@ -284,3 +288,28 @@ func (r *Recorder) Take() []ProcEvent {
 }
 
 func (r *Recorder) Stop() { verifhook.SetEvent(nil) }
+
+// Metrics is a meter provider of the harness' own, installed as the meter otel.GetMeter() hands out (hook
+// SetMeterForVerif): the gauges that quota resources and plugins register are then collected when the harness
+// says so - the read path of the gateway's /metrics endpoint.
+type Metrics struct {
+	reader   *sdkmetric.ManualReader
+	provider *sdkmetric.MeterProvider
+}
+
+// NewMetrics installs a fresh provider; call it before the components that register gauges are built.
+func NewMetrics() *Metrics {
+	r := sdkmetric.NewManualReader()
+	p := sdkmetric.NewMeterProvider(sdkmetric.WithReader(r))
+	lunarotel.SetMeterForVerif(p.Meter("verif"))
+	return &Metrics{reader: r, provider: p}
+}
+
+// Read performs one metrics collection (every registered gauge callback runs).
+func (m *Metrics) Read() error {
+	var rm metricdata.ResourceMetrics
+	return m.reader.Collect(context.Background(), &rm)
+}
+
+// Close drops the provider (its callbacks are not called any more).
+func (m *Metrics) Close() { _ = m.provider.Shutdown(context.Background()) }
